@@ -753,6 +753,10 @@ class BaseSection(base.Sectionable):
             mine = self.contains(obj)
             if mine is not None:
                 mine.merge(obj, strict)
+            elif isinstance(obj, BaseSection) and obj.name in self.sections:
+                # The name is already used by a Section of a different type;
+                # names are unique among siblings, so keep the existing Section.
+                continue
             else:
                 mine = obj.clone()
                 mine._merged = obj
